@@ -1212,6 +1212,23 @@ func main() {
 			guardCase(c, section, fmt.Sprintf("%s#%d", section, i), func() { runSizeClass(c, d, section, i, r) })
 		})
 	}
+	// several live maps, PutAll between them (multi.go)
+	perMulti := c.N(800, 12000)
+	for _, d := range pmap.Types {
+		d := d
+		if d.Name != pmap.TIntKeyMap {
+			continue // the only type whose bulk operation takes another map
+		}
+		section := "multi-" + d.Name
+		c.Cases(section, perMulti, func(i int, r *vlib.Rand) {
+			if hungTypes[d.Name] {
+				c.Eval(-1)
+				c.Count("histories_skipped_after_hang", 1)
+				return
+			}
+			guardCase(c, section, fmt.Sprintf("%s#%d", section, i), func() { runMulti(c, d, section, i, r) })
+		})
+	}
 	c.Cases("serial", c.N(1500, 30000), func(i int, r *vlib.Rand) {
 		if hungTypes[pmap.TIntIntMap] {
 			c.Eval(-1)
@@ -1243,6 +1260,10 @@ func main() {
 	c.Floor("growths_with_old_chain_ge2_StringSet", int64(per)/10/sh, c.Counter("growths_with_old_chain_ge2_StringSet"))
 	c.Floor("serialization_round_trips", int64(c.N(1500, 30000))/10/sh, c.Counter("serialization_round_trips"))
 	scFloors(c, perSC)
+	c.Floor("multi_putall_from_live_instance", int64(perMulti)*2/sh, c.Counter("multi_putall_from_live_instance"))
+	c.Floor("multi_putall_from_source_with_chain_ge2", int64(perMulti)/10/sh, c.Counter("multi_putall_from_source_with_chain_ge2"))
+	c.Floor("multi_putall_with_equal_table_lengths", int64(perMulti)/10/sh, c.Counter("multi_putall_with_equal_table_lengths"))
+	c.Floor("multi_mutations_checked_on_every_instance_after_putall", int64(perMulti)*4/sh, c.Counter("multi_mutations_checked_on_every_instance_after_putall"))
 	c.Finish()
 	fmt.Println("done")
 }
